@@ -24,7 +24,7 @@ NEST = {
     "cycle": (lambda o: f"(let ([p (box #f)]) (let ([q (box p)]) (set-box! p (list {o} q)) q))", lambda h: f"(car (unbox (unbox {h})))"),
 }
 # holders through which the object is NOT accessible while the events run (only gc/garbage events)
-OPAQUE = {"closure-global", "closure-local", "argtemp", "handler-cweh", "handler-with", "wind-after",
+OPAQUE = {"thread-tls", "closure-global", "closure-local", "argtemp", "handler-cweh", "handler-with", "wind-after",
           "continuation", "thread-stack", "host-rooted", "closure-in-box"}
 
 PRELUDE = ("(struct vcell@@ (v) #:mutable) (struct wrap@@ (f)) "
@@ -96,6 +96,16 @@ def render(c, prefix, garbage_n):
         S("(define go@@ (channels/new)) (define ready@@ (channels/new))")
         S(f"(define t@@ (spawn-native-thread (lambda () (let ([h {W}]) (channel/send (channels-sender ready@@) 1) "
           f"(channel/recv (channels-receiver go@@)) {rd(path('h'))}))))")
+        S(f"(channel/recv (channels-receiver ready@@)) {ev('')} (channel/send (channels-sender go@@) 1) (emit (thread-join! t@@))", exp)
+    elif holder == "tls":
+        # thread-local storage slot of the evaluating thread
+        S(f"(define slot@@ (make-tls #f)) (set-tls! slot@@ {W})")
+        S(ev("(get-tls slot@@)") + f" (emit {rd(path('(get-tls slot@@)'))})", exp)
+    elif holder == "thread-tls":
+        # the only reference is a thread-local slot of ANOTHER thread (not its stack); the collecting thread is main
+        S("(define slot@@ (make-tls #f)) (define go@@ (channels/new)) (define ready@@ (channels/new))")
+        S(f"(define t@@ (spawn-native-thread (lambda () (set-tls! slot@@ {W}) (channel/send (channels-sender ready@@) 1) "
+          f"(channel/recv (channels-receiver go@@)) {rd(path('(get-tls slot@@)'))})))")
         S(f"(channel/recv (channels-receiver ready@@)) {ev('')} (channel/send (channels-sender go@@) 1) (emit (thread-join! t@@))", exp)
     elif holder == "host-rooted":
         S(f"(define h@@ {W}) (define (rd@@ x) {rd(path('x'))})")
